@@ -67,9 +67,11 @@ def run(ctx):
             ctx.broken('theorem', 'grep gate', hits)
         ctx.coqchk('SDC.Props.C04')
     return ctx.finish(
-        rule='reports: histories on single- and two-MDS MDIBs; every notification on the wire is parsed by the real reader '
-             '(schema validation on) and compared with the committed changes: version group, exactly the changed states / '
-             'descriptors, each once, committed values, grouped under their MDS; order: real writer threads commit '
+        rule='reports: crafted + random histories on single- and two-MDS MDIBs (transactions whose states belong to two MDSs '
+             'in every order, MDSs created at run time, context descriptors with several states updated); every notification '
+             'on the wire is parsed by the real reader (schema validation on) and compared with the committed changes: '
+             'version group, exactly the changed states / descriptors, each once, committed values, grouped under their MDS, '
+             'every description report part with every changed state of its descriptor; order: real writer threads commit '
              'concurrently, two subscribers, delivery order per subscriber must be non-decreasing and complete; retained: '
              'copies published by a commit keep their values under later nested writes; distinct = distinct traces / '
              'delivery sequences / (handle, path) pairs',
